@@ -336,6 +336,9 @@ def _str_join(interp, args, kwargs):
         for p_ in parts[1:]:
             t = z3.Concat(t, sep, p_)
         return SV(STR, t)
+    if isinstance(lst, Opaque) or getattr(lst, "unknown", False) or (isinstance(lst, tuple) and lst and lst[0] == "genexp"):
+        # parts the encoding knows nothing about (a generator over unmodelled values): the result is SOME text
+        return SV(STR, z3.Const(ctx.fresh_name("joined"), z3.StringSort()))
     sv = lst.sym if isinstance(lst, Cell) else lst
     ty = sv.ty
     if ty != TList(STR):
